@@ -351,6 +351,67 @@ def rslice_case(draw, tier):
             "via": via, "lz": draw(LZ), "bounds_as": draw(st.sampled_from(["int64", "int64", "int32", "intp"]))}   # Python lists are not claimed (the library adds them to array offsets)
 
 
+def body_fn_sequence(case, ctx):
+    """2-5 structural functions applied one after the other to the SAME array (none of them writes): every result is
+    checked against the per-row reference and the array must be unchanged afterwards"""
+    from npstructures import ragged_slice
+    a = case["a"]
+    rows = np_rows(a)
+    lens = a["lens"]
+    ra = lazy_ra(rows, a["dt"], case["lz"])
+    other = lazy_ra(rows, a["dt"], 0)           # a second array with the same rows (may share nothing with ra)
+    L = max(lens)
+    ctx.label(*gen.shape_labels(lens), "dt:" + a["dt"], "steps:%d" % len(case["steps"]))
+    ctx.nt(len(case["steps"]) >= 2 and 0 in lens)
+    for k, st_ in enumerate(case["steps"]):
+        ctx.label("seq:" + st_[0])
+        info = dict(step=k, op=st_, before=case["steps"][:k])
+        if st_[0] == "pad":
+            exp = np.zeros((len(lens), L), dtype=a["dt"])
+            for i, r in enumerate(rows):
+                if st_[1] == "right":
+                    exp[i, :len(r)] = r
+                else:
+                    exp[i, L - len(r):] = r
+            expect_array(lib(lambda: ra.as_padded_matrix(side=st_[1])), exp, "seq-padded", **info)
+        elif st_[0] == "rslice":
+            starts = [st_[1] % (l + 1) for l in lens]
+            ends = [s_ + (st_[2] % (l - s_ + 1)) for s_, l in zip(starts, lens)]
+            exp = [r[s_:e] for r, s_, e in zip(rows, starts, ends)]
+            expect_ragged(lib(lambda: ragged_slice(ra, np.array(starts, dtype=np.int64), np.array(ends, dtype=np.int64))), exp, "seq-ragged_slice", exp_dtype=a["dt"], **info)
+        elif st_[0] == "concat":
+            exp = [np.concatenate([r, r]) for r in rows] if st_[1] == "cols" else rows + rows
+            expect_ragged(lib(lambda: np.concatenate([ra, other], axis=-1 if st_[1] == "cols" else 0)), exp, "seq-concatenate", exp_dtype=a["dt"], **info)
+        elif st_[0] == "nonzero":
+            er = [i for i, r in enumerate(rows) for v in r if v != 0]
+            ec = [j for r in rows for j, v in enumerate(r) if v != 0]
+            g = lib(lambda: np.nonzero(ra))
+            if not g.ok or np.asarray(g.value[0]).tolist() != er or np.asarray(g.value[1]).tolist() != ec:
+                raise Violation("seq-nonzero", expected=[er, ec], got=g.brief(), **info)
+        elif st_[0] == "like":
+            g = lib(lambda: np.zeros_like(ra))
+            expect_ragged(g, [np.zeros(len(r), dtype=a["dt"]) for r in rows], "seq-zeros_like", exp_dtype=a["dt"], **info)
+        elif st_[0] == "subset":
+            m = [r != 0 for r in rows]
+            mra = lazy_ra(m, "bool", 0)
+            expect_ragged(lib(lambda: ra.subset(mra)), [r[mm] for r, mm in zip(rows, m)], "seq-subset", exp_dtype=a["dt"], **info)
+        elif st_[0] == "colsum-read":
+            lib(lambda: ra.sum(axis=0))
+        expect_unchanged(ra, rows, a["dt"], "seq-array-after-" + st_[0], **info)
+
+
+@st.composite
+def fn_sequence_case(draw, tier):
+    a = draw(gen.ragged(tier, dts=["int64", "uint8", "float64", "bool", "int16"], min_rows=1, specials=False))
+    if sum(a["lens"]) == 0:
+        a = {"lens": a["lens"] + [2], "dt": a["dt"], "vals": draw(gen.flat_values(a["dt"], 2, specials=False))}
+    step = st.one_of(st.tuples(st.just("pad"), st.sampled_from(["left", "right", "left"])).map(list),
+                     st.tuples(st.just("rslice"), st.integers(0, 50), st.integers(0, 50)).map(list),
+                     st.tuples(st.just("concat"), st.sampled_from(["rows", "cols"])).map(list),
+                     st.sampled_from([["nonzero"], ["like"], ["subset"], ["colsum-read"]]))
+    return {"a": a, "steps": draw(st.lists(step, min_size=2, max_size=5)), "lz": draw(LZ)}
+
+
 SUBCHECKS = [
     SubCheck("concatenate-rows", body_concat0, concat0_case, quick=5000, thorough=400000, shards_quick=3,
              doc="np.concatenate axis 0 / default of 1-4 arrays (zero-row operands, mixed dtypes, pending views)"),
@@ -366,6 +427,9 @@ SUBCHECKS = [
              doc="np.where(ragged mask, ragged x, ragged or scalar y) picks cell by cell"),
     SubCheck("mask-select", body_mask_select, mask_select_case, quick=4000, thorough=300000, shards_quick=2,
              doc="subset(mask) keeps per row the cells whose mask is true; ra[mask] the same cells flat in row-major order"),
+    SubCheck("function-sequence", body_fn_sequence, fn_sequence_case, quick=5000, thorough=300000, shards_quick=3,
+             doc="2-5 structural functions (padded matrix left/right, ragged_slice, concatenate rows/columns, nonzero, zeros_like, "
+                 "subset) applied one after the other to the SAME array, each against its reference; array unchanged after each"),
     SubCheck("ragged-slice", body_rslice, rslice_case, quick=6000, thorough=500000, shards_quick=3,
              doc="ragged_slice / NPSArray[starts:ends] on ragged, 1-D and 2-D inputs; negative and omitted ends"),
 ]
